@@ -2,7 +2,9 @@ package klevdb
 
 import (
 	"bytes"
+	"errors"
 	"fmt"
+	"os"
 	"sync"
 	"sync/atomic"
 	"time"
@@ -259,7 +261,15 @@ func (r *reader) GetByTime(ts int64, tctx int64) (message.Message, error) {
 }
 
 func (r *reader) Stat() (segment.Stats, error) {
-	return r.segment.Stat(r.params)
+	stats, err := r.segment.Stat(r.params)
+	if err != nil && errors.Is(err, os.ErrNotExist) {
+		// the index file is (re)built on first use, it might not be there yet
+		if _, ierr := r.getIndexMarked(); ierr != nil {
+			return stats, err
+		}
+		return r.segment.Stat(r.params)
+	}
+	return stats, err
 }
 
 func (r *reader) Backup(dir string) error {
